@@ -247,6 +247,40 @@ func VerifHarness_ConfigQueueAccounting() {
 	}
 }
 
+// The handler outlives a backend: after backend A was made ready, the player switches to backend B in the
+// configuration phase. Messages sent before B is ready are held for B and delivered to it, in order, when
+// B becomes ready; afterwards messages go to B directly; A receives nothing more.
+func VerifHarness_ConfigQueueSecondBackend() {
+	zz.MaxLen(2)
+	pl, _ := zzC24Player()
+	h := &clientConfigSessionHandler{player: pl, log: logr.Discard()}
+	connA, connB := newZZConn(767, state.Config), newZZConn(767, state.Config)
+	a, b := &serverConnection{connection: connA}, &serverConnection{connection: connB}
+	nA := zz.Choose(2)
+	for i := 0; i < nA; i++ {
+		zz.Assert(h.enqueuePluginMessage(a, zzMsg(i)), "an early message was not queued")
+	}
+	zz.Assert(h.flushQueuedPluginMessagesTo(a) == nil, "the flush to the first backend failed")
+	zz.Assert(!h.enqueuePluginMessage(a, zzMsg(5)), "a message for the ready backend was queued instead of forwarded")
+	before := len(zzPluginLog(connA))
+	nB := 1 + zz.Choose(2)
+	var wantB []*plugin.Message
+	for i := 0; i < nB; i++ {
+		m := zzMsg(2 + i)
+		zz.Assert(h.enqueuePluginMessage(b, m), "a message for the second backend, which is not ready yet, was not held")
+		wantB = append(wantB, m)
+	}
+	zz.Assert(h.flushQueuedPluginMessagesTo(b) == nil, "the flush to the second backend failed")
+	gotB := zzPluginLog(connB)
+	zz.Assert(len(gotB) == nB, "the messages held for the second backend were not delivered to it exactly once")
+	for i := range wantB {
+		zz.Assert(gotB[i].Channel == wantB[i].Channel && bytes.Equal(gotB[i].Data, wantB[i].Data), "the second backend received its held messages changed or out of order")
+	}
+	zz.Assert(len(zzPluginLog(connA)) == before, "the first backend received messages meant for the second")
+	zz.Assert(!h.enqueuePluginMessage(b, zzMsg(6)), "after the second backend became ready its messages are still being held")
+	zz.Reach("second-backend")
+}
+
 func VerifMutant_QueueCaps() {
 	pl, _ := zzC24Player()
 	h := &clientConfigSessionHandler{player: pl, log: logr.Discard()}
